@@ -1,6 +1,8 @@
 import Enc.Model.Proto
 import Enc.Model.ProtoTo
 import Enc.Model.ProtoAlloc
+import Enc.Model.ProtoMsg
+import Enc.Driver.ProtoZoo
 import Enc.Spec.Protobuf
 import Enc.Spec.Known
 import Enc.Driver.ProtoScan
@@ -171,6 +173,52 @@ def handle (op : String) (args : List String) : Option (String × String × Stri
     let ty ← Ty.parse ty
     let b ← fromHex h
     pure (showDec ty (Model.Proto.unmarshal ty b), "-", "")
+  /- message types with user-defined (Message / gogo custom) types, harness/protomsg.go: M = the model with the user's methods
+     as parameters (`Model.ProtoMsg`), instantiated by what the zoo types implement at the level of payloads (`zooOps`) -/
+  | "proto.msgmarshal", [ty, v] => do
+    let ty ← Ty.parse ty
+    let v ← Val.parse v
+    let m := match Model.Proto.marshalUsr Model.Proto.zooOps ty v with
+      | .ok b => "ok:" ++ toHex b ++ ":" ++ toString (Model.Proto.marshalSizeUsr Model.Proto.zooOps ty v)
+      | .err _ => "err"
+      | .panic e => "panic:" ++ e
+    pure (m, "-", String.intercalate "," (Known.protoClasses ty v))
+  | "proto.msgroundtrip", [ty, v] => do
+    let ty ← Ty.parse ty
+    let v ← Val.parse v
+    let m := match Model.Proto.marshalUsr Model.Proto.zooOps ty v with
+      | .ok b =>
+        s!"sz={Model.Proto.marshalSizeUsr Model.Proto.zooOps ty v};len={b.length};rt="
+          ++ showDec ty (Driver.ProtoZoo.mapRes (Driver.ProtoZoo.showZero ty) (Model.Proto.unmarshalUsr Model.Proto.zooOps ty b))
+      | .err _ => "marshal-err"
+      | .panic e => "panic:" ++ e
+    pure (m, "-", String.intercalate "," (Known.protoClasses ty v))
+  | "proto.msgmarshalto", [ty, v, n] => do
+    let ty ← Ty.parse ty
+    let v ← Val.parse v
+    let n ← n.toNat?
+    let size := Model.Proto.marshalSizeUsr Model.Proto.zooOps ty v
+    let m := match Model.Proto.marshalUsr Model.Proto.zooOps ty v with
+      | .ok full =>
+        (match Model.Proto.marshalToUsr Model.Proto.zooOps ty v n with
+        | .ok b =>
+          if n ≥ size then s!"ok:n={b.length};bytes=" ++ (if b == full then "same" else "differ") ++ ";guard=1"
+          else s!"ok:n={b.length}"
+        | .err _ => if n ≥ size then "err" else "shortbuffer;guard=1"
+        | .panic e => "panic:" ++ e)
+      | _ => "marshal-err"
+    let s := match Model.Proto.marshalUsr Model.Proto.zooOps ty v with
+      | .ok _ => if n ≥ size then s!"ok:n={size};bytes=same;guard=1" else "shortbuffer;guard=1"
+      | _ => "-"
+    pure (m, s, "")
+  | "proto.msgdecode", [ty, h] => do
+    let ty ← Ty.parse ty
+    let b ← fromHex h
+    -- the zoo's Unmarshal methods reject malformed payloads: `ProtoZoo.opsFor`
+    let m := match Driver.ProtoZoo.opsFor ty with
+      | some ops => showDec ty (Driver.ProtoZoo.mapRes (Driver.ProtoZoo.showZero ty) (Model.Proto.unmarshalUsr ops ty b))
+      | none => "-"
+    pure (m, "-", "")
   | op, args => Driver.ProtoScan.handle op args     -- proto.scan, proto.scanerr, proto.rawvalue, proto.tag
 
 end Enc.Driver.Proto
